@@ -40,8 +40,9 @@ type refPeer struct {
 	libAns   map[string]byte   // our answers to the library's proposals
 	problems []string
 	libFF    bool
-	quit     bool // the peer ended the session with FQ
-	hold     bool // answer H instead of + (accepted, will be held)
+	quit     bool           // the peer ended the session with FQ
+	hold     bool           // answer H instead of + (accepted, will be held)
+	prec     map[string]int // precedence class of the library's messages (from their subjects), for the order check
 }
 
 type peerMsg struct {
@@ -247,6 +248,14 @@ func (p *refPeer) turns(myTurn bool, pending string) error {
 				if want := fmt.Sprintf("F> %02X", p.checksum(lines)); l != want {
 					p.bad("block checksum %q, expected %q", l, want)
 				}
+				// precedence first, then compressed size, smallest first
+				for i := 1; i < len(mids); i++ {
+					pa, oka := p.prec[mids[i-1]]
+					pb, okb := p.prec[mids[i]]
+					if oka && okb && (pa > pb || (pa == pb && sizes[i-1][1] > sizes[i][1])) {
+						p.bad("block not in precedence-then-size order: %s (class %d, %d bytes) before %s (class %d, %d bytes)", mids[i-1], pa, sizes[i-1][1], mids[i], pb, sizes[i][1])
+					}
+				}
 				p.libFF = false
 				var ans strings.Builder
 				var acc []int
@@ -396,7 +405,11 @@ func runC05(ctx *Ctx) error {
 			lib.Motd = []string{"Welcome to " + lib.Mycall}
 		}
 		used := map[string]bool{}
-		for k := r.Intn(9); k > 0 && r.Intn(4) != 0; k-- {
+		nOut := r.Intn(9)
+		if i%8 == 3 {
+			nOut = 13 + r.Intn(12) // more than a dozen pending messages: several blocks, and the size order within a precedence class needs a stable sort
+		}
+		for k := nOut; k > 0 && (nOut > 12 || r.Intn(4) != 0); k-- {
 			mid := r.Mid()
 			if !used[mid] {
 				used[mid] = true
@@ -419,6 +432,19 @@ func runC05(ctx *Ctx) error {
 			if r.Intn(2) == 0 {
 				peer.fw = append(peer.fw, "AUX1|12345678", "AUX2")
 			}
+		}
+		peer.prec = map[string]int{}
+		for _, m := range lib.Outbox {
+			// Winlink message precedence: flash Z, immediate O, priority P, routine otherwise
+			subj, _ := new(fbb.WordDecoder).DecodeHeader(m.Header.Get("Subject"))
+			class := 3
+			for k, tag := range []string{"//WL2K Z/", "//WL2K O/", "//WL2K P/"} {
+				if strings.Contains(subj, tag) {
+					class = k
+					break
+				}
+			}
+			peer.prec[m.MID()] = class
 		}
 		for _, m := range lib.Outbox {
 			switch r.Intn(6) {
